@@ -182,10 +182,10 @@ class HtmlBlockTags(EnumPart):
     paragraph (and takes the rest of the line with it); any other complete tag alone on its line may not interrupt a
     paragraph (start condition 7), an incomplete one is text: either way it stays inside the paragraph."""
     name = 'html-block-tags'
-    rule = ('every block-level tag name of the specification and 20 other names x {<t>, </t>, <t/>, <t a="b">, <T>, <t> x, <t, <t\\na>} '
+    rule = ('every block-level tag name of the specification and 20 other names x {<t>, </t>, <t/>, <t a="b">, <T>, <t> x, <t, <t\\na>, <t TAB a>} '
             'on the line after a paragraph line: HTML block for the former, paragraph continuation for the latter; '
             'non-trivial = all; distinct = (name, form)')
-    FORMS = ['<%s>', '</%s>', '<%s/>', '<%s a="b">', '<%S>', '<%s> x *y*', '<%s', '<%s\na="b">']
+    FORMS = ['<%s>', '</%s>', '<%s/>', '<%s a="b">', '<%S>', '<%s> x *y*', '<%s', '<%s\na="b">', '<%s\ta>']
 
     def shards(self, tier):
         return 1
